@@ -43,7 +43,7 @@ func VC19Smoke() {
 }
 
 const (
-	c19ProgA = "DB 1,2\nMOV AX,1\n"           // image: 01 02 b8 01 00
+	c19ProgA = "DB 1,2\nMOV AX,1\n"          // image: 01 02 b8 01 00
 	c19ProgB = "DB 9,9,9,9,9,9,9,9,9\nHLT\n" // a longer image: a stale tail would show
 	// an object-format source: its writer opens the output on its own
 	c19ProgC = "[FORMAT \"WCOFF\"]\n[BITS 32]\n[FILE \"c.nas\"]\nGLOBAL _f\n[SECTION .text]\n_f:\nMOV EAX,1\nRET\n"
